@@ -181,11 +181,12 @@ def destroyStream (c : Cfg) (s : S) (k : Nat) : S :=
            requests := if streamLiveCounted s k then Gen.Resource.decrease c.maxRequests s.requests else s.requests,
            upActive := if streamLiveCounted s k then s.upActive - 1 else s.upActive }
 
-/-- `upstreamRequest.OnResetStream(reason)` (also reached through `OnFailure`) -/
+/-- `upstreamRequest.OnResetStream(reason)` (also reached through `OnFailure`): unless a retry is being set up or a
+reset is already pending, record the reset and wake the worker.  One record update. -/
 def upOnResetStream (s : S) (reason : Reason) : S :=
-  if s.setupRetry then s
-  else if s.upReset then s
-  else sendNotify { s with upReset := true, resetReason := reason }
+  let fire := !s.setupRetry && !s.upReset
+  { s with upReset := s.upReset || fire, resetReason := if fire then reason else s.resetReason,
+           notify := s.notify || fire }
 
 /-- index of the client stream the current upstream request owns (`requestSender ≠ nil`) -/
 def curStream (s : S) : Option Nat := match s.up with | some (some k) => some k | _ => none
@@ -223,21 +224,22 @@ def retryOps (c : Cfg) (check : Bool) : Gen.ProxyRetry.Ops RSt where
 def retryCheck (c : Cfg) (s : S) (reason : Option Reason) : Bool :=
   Gen.ProxyRetry.doRetryCheck c.disableRetry c.retryOn (s.statusVar.map Int.ofNat) (c.codes.map Int.ofNat) reason
 
-/-- `retryState.retry(ctx, headers, reason)`; only `rs` and `retries` change -/
-def rsRetry (c : Cfg) (s : S) (reason : Option Reason) : S × Int :=
-  match s.rs with
-  | some r =>
-    let res := Gen.ProxyRetry.retry (retryOps c (retryCheck c s reason)) (r, s.retries)
-    ({ s with rs := some res.1.1, retries := res.1.2 }, res.2)
-  | none => (s, Gen.ProxyRetry.NoRetry)
+/-- result of the regenerated `retryState.retry` on the current retry state (none when there is no retry state) -/
+def retryRes (c : Cfg) (s : S) (reason : Option Reason) : Option (RSt × Int) :=
+  s.rs.map (fun r => Gen.ProxyRetry.retry (retryOps c (retryCheck c s reason)) (r, s.retries))
 
-/-- `retryState.reset()` when a retry state exists; only `rs` and `retries` change -/
+/-- `retryState.retry(ctx, headers, reason)`; only `rs` and `retries` change (one record update) -/
+def rsRetry (c : Cfg) (s : S) (reason : Option Reason) : S × Int :=
+  ({ s with rs := (retryRes c s reason).map (fun x => x.1.1),
+            retries := match retryRes c s reason with | some x => x.1.2 | none => s.retries },
+   match retryRes c s reason with | some x => x.2 | none => Gen.ProxyRetry.NoRetry)
+
+/-- `retryState.reset()` when a retry state exists; only `rs` and `retries` change (one record update) -/
 def rsReset (c : Cfg) (s : S) : S :=
-  match s.rs with
-  | some r =>
-    let res := Gen.ProxyRetry.reset (retryOps c false) (r, s.retries)
-    { s with rs := some res.1, retries := res.2 }
-  | none => s
+  { s with rs := s.rs.map (fun r => (Gen.ProxyRetry.reset (retryOps c false) (r, s.retries)).1),
+           retries := match s.rs with
+             | some r => (Gen.ProxyRetry.reset (retryOps c false) (r, s.retries)).2
+             | none => s.retries }
 
 /-- `downStream.cleanUp()` -/
 def cleanUp (c : Cfg) (s : S) : S :=
@@ -260,15 +262,16 @@ def cleanStream (c : Cfg) (s : S) : S :=
 def dsResetStream (c : Cfg) (s : S) : S :=
   cleanStream c { s with respCode := TimeoutExceptionCode }
 
-/-- `downStream.OnResetStream(reason)` -/
+/-- `downStream.OnResetStream(reason)`: the first reset is recorded and wakes the worker.  One record update. -/
 def dsOnResetStream (s : S) (reason : Reason) : S :=
-  if s.downReset then s else sendNotify { s with downReset := true, resetReason := reason }
+  { s with downReset := true, resetReason := if s.downReset then s.resetReason else reason,
+           notify := s.notify || !s.downReset }
 
 /-- `downStream.resetStream()`: reset the downstream stream (its listeners — ourselves — are notified) -/
 def resetDownstream (c : Cfg) (s : S) : S :=
   if !c.oneway && !s.procDone then
-    let s := emit { s with procDone := true } .dr
-    if s.downLive then dsOnResetStream { s with downLive := false } .StreamLocalReset else s
+    let s1 := { s with procDone := true, trace := s.trace ++ [.dr] }
+    if s.downLive then dsOnResetStream { s1 with downLive := false } .StreamLocalReset else s1
   else s
 
 /-- `downStream.endStream()` -/
@@ -530,16 +533,18 @@ def work (c : Cfg) (s : S) : S :=
 
 /-- a response frame for client stream k arrives: `stream.client` destroys the stream, then `upstreamRequest.OnReceive`.
 Only a stream that is still registered with its connection can be answered: not yet answered and not reset
-(xprotocol `xStream.ResetStream` and `handleResponse` delete it from `clientStreams`); one-way streams never. -/
+(xprotocol `xStream.ResetStream` and `handleResponse` delete it from `clientStreams`); one-way streams never.
+The frame is accepted (`acc`) unless the request is done, a retry is being set up, or the CAS on
+`upstreamResponseReceived` is lost. -/
 def upResp (c : Cfg) (s : S) (k code : Nat) (d t : Bool) : S :=
   match s.streams[k]? with
   | some st =>
     if !st.real || !st.counted || !st.live then s else
-    let s := destroyStream c s k
-    let s := { s with statusVar := some code }         -- the codec publishes the status before handing the frame over
-    if processDone s || s.setupRetry then s
-    else if s.urr then s
-    else sendNotify { s with urr := true, respCode := code, resp := some ⟨d, t⟩ }
+    let acc := !(processDone s || s.setupRetry) && !s.urr
+    { destroyStream c s k with
+        statusVar := some code,        -- the codec publishes the status before handing the frame over
+        urr := s.urr || acc, respCode := if acc then code else s.respCode,
+        resp := if acc then some ⟨d, t⟩ else s.resp, notify := s.notify || acc }
   | none => s
 
 /-- client stream k is reset by its connection / peer: listeners' OnResetStream, then destroy.  A one-way client
